@@ -261,7 +261,7 @@ def cases(ctx: Ctx):
                            "layers": n, "max": mx, "stream": rng.choice(streams), "via": rng.choice(["send", "terminal"]), "callback": True}
     # (4) random headers from the presence lattice
     ts = c06.t_slots()
-    for _ in range(6000 if quick else 40000):
+    for _ in range(6000 if quick else 100000):
         present = [s for s in ts if rng.random() < rng.choice([0.1, 0.4, 0.8])]
         desc = c06.t_desc(rng, present)
         if rng.random() < 0.8 and desc["f"].get("medium") not in (None, "DIRECT"):
